@@ -48,9 +48,15 @@ def run(tier):
         seen.add(t)
         bodies.append(("(" + zw.unparse(src, "top") + ")", t))
     cmds, meta = [], []
+    cached = {}
     def add(q, group, kind, fileq=None):
-        cmds.append("\t".join(["run", str(len(cmds)), "max=3000,t=30", zw.hexq(q)] + ([fileq] if fileq else [])))
-        meta.append((group, kind, q))
+        if (q, fileq) not in cached:           # the same query (a prefix P) is run once
+            cached[(q, fileq)] = len(cmds)
+            # one Dwarf value per file for the whole batch: the order between DIEs of a file and of its
+            # dwz alt file follows the two handles, and P, P ?W and P !W must see the same ones
+            cmds.append("\t".join(["run", str(len(cmds)), "max=3000,t=30" + (",share" if fileq else ""), zw.hexq(q)]
+                                  + ([fileq] if fileq else [])))
+        meta.append((group, kind, q, cached[(q, fileq)]))
     groups = []
     for src, e in bodies:
         g = len(groups)
@@ -75,11 +81,37 @@ def run(tier):
                 add("%s !(%s)" % (p, e), g, "neg", fq)
                 add("%s let X_ := %s;" % (p, e), g, "let", fq)
                 add("%s [%s]" % (p, e), g, "cap", fq)
+    # 4. every ?word / !word of the vocabulary, bare, on values of the kind it tests (exact partition) and on
+    #    other kinds (nothing invented or altered); DIEs that inherit attributes through
+    #    DW_AT_abstract_origin / DW_AT_specification are in nullptr.o
+    wr = zw.run_driver(drv, ["words\tw\t-\t00"], wd, tag="words")
+    import re
+    bases = sorted(set(w[1:] for w in wr[0]["words"] if w[0] in "?!"))
+    def prefixes(w):
+        if re.match(r"^(DW_)?AT_", w): return ["entry", "entry attribute"]
+        if re.match(r"^(DW_)?TAG_", w): return ["entry", "abbrev entry"]
+        if re.match(r"^(DW_)?FORM_", w): return ["entry attribute", "abbrev entry attribute"]
+        if re.match(r"^(DW_)?OP_", w): return ["entry @AT_location", "entry @AT_location elem"]
+        return ["entry", "entry attribute", "entry dup parent", "entry @AT_name dup", "entry [child] dup", "entry @AT_name \"a\"",
+                "entry @AT_location address dup", "1 2", "[1] [1, 2]"]
+    nbare = 0
+    for f in ("nullptr.o", "a1.out"):
+        fq = os.path.join(tests, f)
+        for w in bases:
+            if w in ("=", "~"):          # != and !~ are infix operators, not words
+                continue
+            for pfx in prefixes(w):
+                g = len(groups)
+                groups.append((pfx, "bare " + w, f))
+                add(pfx, g, "P", fq)
+                add("%s ?%s" % (pfx, w), g, "pos", fq)
+                add("%s !%s" % (pfx, w), g, "neg", fq)
+                nbare += 1
     res = zw.run_driver(drv, cmds, wd, tag="meta")
     byid = {r.get("id"): r for r in res}
     bygroup = collections.defaultdict(dict)
-    for i, (g, kind, q) in enumerate(meta):
-        bygroup[g][kind] = (q, byid.get(str(i)))
+    for (g, kind, q, ci) in meta:
+        bygroup[g][kind] = (q, byid.get(str(ci)))
     nontriv = 0
     for g, d in bygroup.items():
         src, e, f = groups[g]
@@ -113,10 +145,14 @@ def run(tier):
             # hard errors (e.g. empty stack) must hit both flavours alike
             vd.observe("assert " + key0, {"why": "status differs between ?(E) and !(E)", "pos": pos, "neg": neg})
         for kind in ("infix-eq", "infix-ne"):
+            if kind not in d:
+                continue
             if kind in d and d[kind][1] and d[kind][1].get("status") == "ok":
                 c = collections.Counter(skey(s) for s in d[kind][1]["results"])
                 if c - base:
                     vd.observe("infix " + key0, {"why": "infix assertion altered the stack", "P": d["P"], kind: d[kind]})
+        if "let" not in d:
+            continue
         let = d["let"][1]
         if let and let.get("status") == "ok":
             c = collections.Counter(skey(s) for s in let["results"])
